@@ -6,8 +6,8 @@ import (
 )
 
 // name alphabets: first byte excludes '.', '-' (no dot-files, no flag look-alikes); '/' and '\' never occur inside a component
-const vpFirst = "a-z0-9 (+_"
-const vpRest = "a-z0-9 (+_.-"
+const vpFirst = "a-z0-9 (+_%"
+const vpRest = "a-z0-9 (+_%.-"
 
 // vpPath builds a path of 1..depth components, each of 1..maxc symbolic bytes.
 func vpPath(name string, depth, maxc int) string {
